@@ -95,12 +95,50 @@ def has_meta(s):
     return any(c in s for c in META)
 
 
+EVIL_KEYS = ["<k>", "it's", 'q"', "a&b", "</p>", "'\"><"]       # no '=' / ',' (proggen's kind strings), never looked up by name
+
+
+def evil_nested(rng, v):
+    """the same shape with metacharacter strings in place of (some of) the strings, at any depth"""
+    if isinstance(v, str):
+        return rng.choice(EVIL) if rng.chance(2, 3) else v
+    if isinstance(v, list):
+        return [evil_nested(rng, x) for x in v]
+    if isinstance(v, dict):
+        return {k: evil_nested(rng, x) for k, x in v.items()}
+    return v
+
+
+def map_has_meta(v, inside=False):
+    if isinstance(v, str):
+        return inside and has_meta(v)
+    if isinstance(v, list):
+        return any(map_has_meta(x, inside) for x in v)
+    if isinstance(v, dict):
+        return any(map_has_meta(k, True) or map_has_meta(x, True) for k, x in v.items())
+    return False
+
+
+NEW_CONSTRUCTS = [("map_literal", re.compile(r'\{(?:"[a-z]+"|\d+): |\{\}')), ("map_lookup", re.compile(r'\b[de](?:\.[a-z]+\b|\[")')),
+                  ("loop_over_map", re.compile(r'\{% for k\d+(?:, x\d+)? in ')), ("items_filter", re.compile(r'\|items\b')),
+                  ("unpacking_set", re.compile(r'\{% set \w+, \w+ = ')), ("unpacking_with", re.compile(r'\{% with \(\w+, \w+\) = ')),
+                  ("mapping_test", re.compile(r' is (?:not )?mapping\b'))]
+
+
 def evil_context(rng, wild=False):
     ctx, kinds = proggen.default_context(rng)
     ctx["s"] = rng.choice(EVIL)
     ctx["h"] = rng.choice(EVIL) + rng.choice(["", " ", "x"]) + rng.choice(EVIL)
     ctx["q"] = rng.choice(EVIL)
     kinds.update({"h": "str", "q": "str"})
+    # maps: metacharacter strings as values under the typed keys (the kinds stay as they are), nested inside the
+    # second map, and under a key that is itself a metacharacter string (not listed in the kinds: such a key is
+    # never written as `d.<k>`, it shows up when the whole map is printed, iterated over, unpacked, `|items`, `|list`)
+    if "b" in ctx["d"] and rng.chance(2, 3):
+        ctx["d"]["b"] = rng.choice(EVIL)
+    if rng.chance(1, 2):
+        ctx["d"][rng.choice(EVIL_KEYS)] = rng.choice(EVIL + [[rng.choice(EVIL), 1]])
+    ctx["e"] = evil_nested(rng, ctx["e"])
     if wild:
         ctx["n"] = rng.choice(EVIL)
         ctx["l"] = [rng.choice(EVIL) for _ in range(rng.below(4))]
@@ -167,10 +205,10 @@ SWEEP_CTX = {"x": '<b a="1" c=\'2\'>&/', "y": "'\"><", "lst": ['<b a="1" c=\'2\'
              "n": 2, "w": "<i> \"aa\" 'bb' <u> cc>", "objs": [{"a": "<1>"}, {"a": "'2\""}]}
 SWEEP_PRELUDE = ("{% set cap %}{{ x }}-{{ y }} end{% endset %}{% set sep %}, {% endset %}{% set fmt %}%s and %s{% endset %}"
                  "{% set dash %}a-b-c{% endset %}")
-OPERANDS = ["x", "cap", "lst", "d", "[cap, x]", "(x ~ cap)", "w", "fmt", "dash", "objs", "n"]
+OPERANDS = ["x", "cap", "lst", "d", "[cap, x]", "[cap, cap]", "(x ~ cap)", "w", "fmt", "dash", "objs", "n"]
 ARGS = ["", "(x)", "(cap)", "(n)", "(x, y)", "(cap, x)", "(x, cap)", "(n, x)", "(sep)", "('-', x)", "('upper')", "('a')",
         "(attribute='a')", "(length=6, end=x, leeway=0)", "(length=6, end=sep, leeway=0)", "(width=3, wrapstring=x)",
-        "(n, true)", "(default=x)", "(x, true)", "(1, x)"]
+        "(n, true)", "(default=x)", "(x, true)", "(1, x)", "(lst, d)"]      # (lst, d): non-string arguments that carry markup
 
 
 def sweep_cases(names, rng, thorough):
@@ -319,6 +357,15 @@ def main():
                             hist["A_uses_" + fn] += 1
                     if re.search(r"{% for c\d+ in ", src_i):
                         hist["A_loops_over_a_string"] += 1
+                    for lab, rx in NEW_CONSTRUCTS:
+                        if rx.search(src_i):
+                            hist["A_uses_" + lab] += 1
+                    if map_has_meta(progs[i][1]["d"]) or map_has_meta(progs[i][1]["e"]):
+                        hist["A_context_map_holds_metachar_string"] += 1
+                    if re.search(r"\{(?:&#x27;|&quot;)", out):
+                        hist["A_output_prints_a_map_with_string_keys"] += 1
+                    if re.search(r"(?:\[|, |: )(?:&#x27;|&quot;)[^&]*&(?:lt|gt|quot|#x27);", out):
+                        hist["A_output_prints_metachar_string_nested_in_list_or_map"] += 1
                     if "&lt;" in out or "&gt;" in out or "&quot;" in out or "&#x27;" in out:
                         hist["A_output_has_escaped_metachar"] += 1
                         nontriv.add(("A", reqs[i]["templates"][progs[i][2]], json.dumps(progs[i][1], sort_keys=True)))
@@ -568,9 +615,9 @@ def main():
 
     chk.cov["evaluations"] = evaluations
     chk.cov["distinct_nontrivial"] = len(nontriv)
-    chk.cov["rule"] = ("A: typed random programs (depth 2-4, metacharacter string literals) x contexts of metacharacter strings under 5 auto-escaped template names, engine (debug+release) vs "
+    chk.cov["rule"] = ("A: typed random programs (depth 2-4, metacharacter string literals, map literals / lookups / loops over maps and |items / printing of whole maps and lists / unpacking set and with) x contexts of metacharacter strings - also as values, nested values and keys of the map variables - under 5 auto-escaped template names, engine (debug+release) vs "
                        "extracted interpreter with esc=true, plus the no-raw-metacharacter oracle on the engine output; A': same oracle, wild contexts (metacharacter strings/lists in every variable, "
-                       "html includes); B: generated bodies printed through 15 capture routes vs direct; C: every registered filter x 11 operands x 20 argument shapes, then pairs; D: a family of template names (prefix x extension x ignored-suffix shapes incl. empty stems, upper case, trailing dots, NUL, backslash, non-ASCII, plus random names) "
+                       "html includes); B: generated bodies printed through 15 capture routes vs direct; C: every registered filter x 12 operands x 21 argument shapes, then pairs; D: a family of template names (prefix x extension x ignored-suffix shapes incl. empty stems, upper case, trailing dots, NUL, backslash, non-ASCII, plus random names) "
                        "rendered directly and through include / extends / import from a template of another mode, compared with the proved name->mode model. "
                        "non-trivial = distinct case that renders without error and (A, A') whose output contains an escaped metacharacter entity, (B) whose body output contains an entity, (C) every accepted filter invocation")
     chk.cov["samples"] = samples
